@@ -166,7 +166,28 @@ def service_owns_what_shutdown_needs(ctx):
                   "gone or changed by then, the wake-up connects nowhere, accept() never returns and join() blocks for ever" % (nm, t))
 
 
+def snapshot_is_a_copy(ctx):
+    """'Reads see the values of some sequential order': Stats::getAll hands out a COPY of the map made while stats_mutex_ is held (return by
+    value of stats_ itself).  A reference - however const - outlives the lock, and every caller then walks the live map while the main
+    loop updates it."""
+    P = ctx.prog
+    f = ctx.use(ctx.fn1("Oomd::Stats::getAll"))
+    ret = (f.d.get("ret") or "").strip()
+    by_value = not (ret.endswith("&") or ret.endswith("*") or "reference_wrapper" in ret or "string_view" in ret or "span<" in ret)
+    rets = [ret_text(f, r) for r in returns(f)]
+    ctx.check(by_value and rets == ["this->stats_"], "snapshot-is-a-copy", "E-TYPE (declared return type)", f.loc(),
+              "Stats::getAll returns the map by value", "Stats::getAll is declared to return %s (returns %s): the lock taken inside ends at the return, so what callers read "
+              "through the result is the live map, unsynchronised with increment / set / reset" % (ret, rets))
+    # the free function that plugins and the main loop use hands the copy on by value as well
+    for g in P.fns.values():
+        if g.pq == "Oomd::getStats":
+            r2 = (g.d.get("ret") or "").strip()
+            ctx.check(not (r2.endswith("&") or r2.endswith("*")), "snapshot-is-a-copy:getStats", "E-TYPE (declared return type)", g.loc(),
+                      "getStats returns by value", "getStats is declared to return " + r2)
+
+
 def run(ctx):
+    snapshot_is_a_copy(ctx)
     service_owns_what_shutdown_needs(ctx)
     stat_update_is_applied_before_return(ctx, "C19")
     # the accept loop ends only with the server: a failed accept() (EMFILE, ECONNABORTED, ...) is logged and retried - no break / return
